@@ -24,6 +24,7 @@ import json
 from vlib import core, games
 from vlib import steps_sim as S
 from vlib import history_sim as H
+from vlib import prefix_gen
 from vlib.core import Broken, Mismatch, Failing
 
 ID = 'C17'
@@ -73,18 +74,46 @@ Definition obs_eqb (a b : option (list (option Z * list Z))) : bool :=
 
 def prove(ctx):
     with ctx.coq_lock():
-        ctx.prove('Properties/C17.v')
+        # tie T: regenerate gen/PrefixGen.v from the current
+        # bdd_iterative.py / bdd.Lexer, then re-prove GenProofs/PrefixBridge.v
+        # (translated iterative translator = model on every token list) and
+        # the statements built on it
+        notes = prefix_gen.ensure_prefix(ctx)
+        ctx.checker_cmds.append(
+            'PYTHONPATH=tools python3 tools/vlib/prefix_gen.py > '
+            'coq/gen/PrefixGen.v (translator tools/py2coq_prefix.py)')
+        ctx.prove_with_deps('Properties/C17.v')
+    ctx.extra['translation'] = dict(
+        sources=prefix_gen.SOURCES, functions=prefix_gen.FUNCTIONS,
+        generated='coq/gen/PrefixGen.v',
+        bridge='coq/GenProofs/PrefixBridge.v', notes=notes)
+    ctx.trusted.append(
+        'translator tie T: tools/py2coq_prefix.py (bdd_iterative.Parser.parse, '
+        '_increase, _push, _reduce, add_expr -> Gallina: any exception = None; '
+        'the lexer = the list of unread tokens, a token = its .type and .value '
+        'strings; lists mutated in place = values returned to the caller, with '
+        'aliasing excluded by the translator; stack and memory entries = '
+        'string or node; loop state by liveness, possibly-unbound names as '
+        'options; recursion and `while` = Fixpoints on fuel with the result '
+        'proved for every sufficient fuel; bdd.var/_add_int/apply/true/false '
+        '= the abstract operations of the model; int() = a decimal parser '
+        'exact on lexemes; fails closed; everything skipped is a note in '
+        'coq/gen/PrefixGen.v and in the evidence).  Outside: PLY (that '
+        '`lexer.input(s)` then `lexer.token()` deliver the tokens of s in '
+        'order, then None); the token rules of bdd.Lexer are read into a '
+        'table that the bridge compares with the lexemes it relies on')
     ctx.trusted.append(
         'dd.autoref / dd.cudd agreement and meaning preservation of dd\'s '
         'reorder and garbage collection are NOT proved (dd is outside the '
         'model): validated differentially only, every sequence on 2 back '
         'ends x 2 translators against one model run')
     ctx.trusted.append(
-        'tie H: fol.Context / temporal.Automaton cache / the two prefix '
-        'translators are modelled by hand (theories/L3History); `add_expr` '
-        'is modelled by the integer semantics of a formula fragment '
-        '(+ - comparisons \\in connectives IF quantifiers), `to_expr` by '
-        'its declarations and the meaning of its result')
+        'tie H: fol.Context / temporal.Automaton cache / the recursive '
+        'prefix translator (bdd.Parser, BDDNodes.flatten) are modelled by '
+        'hand (theories/L3History); `add_expr` is modelled by the integer '
+        'semantics of a formula fragment (+ - comparisons \\in connectives '
+        'IF quantifiers), `to_expr` by its declarations and the meaning of '
+        'its result')
 
 
 # =================================================================== (A)
